@@ -15,6 +15,48 @@ let unitres = function Ok _ -> Ok () | Exit -> Exit | OOB -> OOB | Fuel -> Fuel
 let ctor xs = unitres (guard_interpolation fops xs (z (List.length xs)))
 let blocks r = let n = integer r in List.init n (fun _ -> let k = integer r in List.init k (fun _ -> let a = zi r in let b = zi r in (a, b)))
 
+(* ---- several requests on one object *)
+let icall r = match word r with
+  | "loc" -> ILocate (num r)
+  | "ev" -> IEval (num r)
+  | "der" -> let x = num r in let n = zi r in IDeriv (x, n)
+  | "int" -> let a = num r in let b = num r in IIntegrate (a, b)
+  | "min" -> let a = num r in let b = num r in ILocalMin (a, b)
+  | "max" -> let a = num r in let b = num r in ILocalMax (a, b)
+  | "glob" -> IGlobal
+  | w -> failwith ("unknown_interpolation_request_" ^ w)
+let icalls r = let n = integer r in List.init n (fun _ -> icall r)
+let points r = let n = integer r in List.init n (fun _ -> let x = num r in let y = num r in (x, y))
+let out_domain = function
+  | Ok (a, b) -> put_w "OK"; put_f a; put_f b
+  | Exit -> put_w "EXIT" | OOB -> put_w "OOB" | Fuel -> put_w "FUEL"
+let out_domain2 = function
+  | Ok ((a, b), (c, d)) -> put_w "OK"; put_f a; put_f b; put_f c; put_f d
+  | Exit -> put_w "EXIT" | OOB -> put_w "OOB" | Fuel -> put_w "FUEL"
+let fcalls r = let n = integer r in List.init n (fun _ -> match word r with
+  | "f" -> FFact (zi r)
+  | _ -> let a = zi r in let b = zi r in FBinom (a, b))
+let vec_ops r = let n = integer r in List.init n (fun _ -> match word r with
+  | "resize" -> VResize (zi r) | "assign" -> VAssign (zi r) | "copy" -> VCopy | "set" -> VSet (zi r) | "addeq" -> VAddEq (zi r)
+  | w -> failwith ("unknown_vec_op_" ^ w))
+let vec_probe r = match word r with
+  | "none" -> VPNone | "at" -> VPAt (zi r) | "dot" | "add" | "sub" | "addeq" -> VPBinary (zi r) | "cross" -> VPCross (zi r)
+  | w -> failwith ("unknown_vec_probe_" ^ w)
+let zz r = let a = zi r in let b = zi r in (a, b)
+let mat_ops r = let n = integer r in List.init n (fun _ -> match word r with
+  | "resize" -> let (a, b) = zz r in MResize (a, b) | "assign" -> let (a, b) = zz r in MAssign (a, b)
+  | "delrow" -> MDelRow (zi r) | "delcol" -> MDelCol (zi r) | "copy" -> MCopy
+  | "set" -> let (a, b) = zz r in MSet (a, b) | "pluseq" -> let (a, b) = zz r in MPlusEq (a, b)
+  | "sum" -> let (a, b) = zz r in MSum (a, b) | "prod" -> let (a, b) = zz r in MProd (a, b) | "transp" -> MTranspose
+  | w -> failwith ("unknown_mat_op_" ^ w))
+let mat_probe r = match word r with
+  | "none" -> PNone | "at" -> PAt (zi r) | "row" -> PRow (zi r) | "col" -> PCol (zi r)
+  | "plus" | "minus" -> let (a, b) = zz r in PPlus (a, b) | "pluseq" -> let (a, b) = zz r in PPlusEq (a, b)
+  | "mul" -> let (a, b) = zz r in PMul (a, b) | "lmul" -> let (a, b) = zz r in PLMul (a, b)
+  | "matvec" -> PMatVec (zi r) | "vecmat" -> PVecMat (zi r) | "trace" -> PTrace | "det" -> PDet | "transpose" -> PTranspose
+  | "sub" -> let (a, b) = zz r in PSub (a, b) | "eq" -> PEq
+  | w -> failwith ("unknown_mat_probe_" ^ w)
+
 let handler r =
   match word r with
   | "vec_at" | "vec_at_c" -> let d = zi r in let i = zi r in out (guard_vec_index d i)
@@ -83,6 +125,23 @@ let handler r =
       out (andthen (guard_interpolation_2d fops xs ys shape) (fun () -> guard_interpolate_2d fops xs ys x y))
   | "interp2d_table" -> out (guard_interpolation_2d_table fops (table r))
   | "closest" -> let l = list r in let t = num r in out (closest_location fops l t)
+  | "icalls" -> let xs = list r in let nf = zi r in let xd = num r in let fd = num r in let cs = icalls r in
+      out_domain (interp_session fops xs nf xd fd cs)
+  | "icalls_t" -> let tb = table r in let xd = num r in let fd = num r in let cs = icalls r in
+      out_domain (interp_table_session fops tb xd fd cs)
+  | "i2calls" -> let xs = list r in let ys = list r in let l = zl r in let xd = num r in let yd = num r in let _ = num r in
+      let pts = points r in out_domain2 (interp2d_session fops xs ys l xd yd pts)
+  | "i2calls_t" -> let tb = table r in let xd = num r in let yd = num r in let _ = num r in
+      let pts = points r in out_domain2 (interp2d_table_session fops tb xd yd pts)
+  | "fact_seq" -> out (factorial_session fops (z 1) (fcalls r))
+  | "vec_hist" -> let d = zi r in let ops = vec_ops r in let p = vec_probe r in
+      (match vec_session d ops p with
+       | Ok v -> put_w "OK"; put_i (int_of_z v.v_dim)
+       | Exit -> put_w "EXIT" | OOB -> put_w "OOB" | Fuel -> put_w "FUEL")
+  | "mat_hist" -> let a = zi r in let b = zi r in let ops = mat_ops r in let p = mat_probe r in
+      (match mat_session a b ops p with
+       | Ok m -> put_w "OK"; put_i (int_of_z m.m_rows); put_i (int_of_z m.m_cols); put_i (int_of_z (mat_bad_rows m))
+       | Exit -> put_w "EXIT" | OOB -> put_w "OOB" | Fuel -> put_w "FUEL")
   | o -> put_w ("MODELERR unknown_op_" ^ o)
 
 let () = run handler
